@@ -172,9 +172,10 @@ def _run_refactor(args: Tuple[str, str, str]) -> Dict[str, Any]:
 
 
 def run_refactors(repo_root: str, prop: str, jobs: int = 16) -> List[Dict[str, Any]]:
-    """behaviour-preserving refactorings written by independent maintainers (refactors/<id>/patch.diff): nothing may be reported"""
+    """behaviour-preserving refactorings and property-preserving functional changes written by independent maintainers
+    (refactors/<id>/patch.diff, features/<id>/patch.diff): nothing may be reported"""
     import glob
-    patches = sorted(glob.glob(os.path.join(REFACTORS, "*", "patch.diff")))
+    patches = sorted(glob.glob(os.path.join(REFACTORS, "*", "patch.diff"))) + sorted(glob.glob(os.path.join(FEATURES, "*", "patch.diff")))
     if not patches:
         return []
     base = evaluate(prop, repo_root)
@@ -195,6 +196,8 @@ def run_refactors(repo_root: str, prop: str, jobs: int = 16) -> List[Dict[str, A
 
 
 SEEDED = os.path.join(os.path.dirname(REFACTORS), "seeded")
+# functional changes (speed-ups, better messages, hardening) that keep every property: must stay silent like the refactorings
+FEATURES = os.path.join(os.path.dirname(REFACTORS), "features")
 
 
 def tree_digest(repo_root: str) -> str:
